@@ -18,6 +18,7 @@ driver reports as an analysis error rather than a verdict.
 from __future__ import annotations
 
 import ast
+from fractions import Fraction
 from typing import Any, Callable, Optional
 
 from .facts import ShapeError
@@ -147,6 +148,8 @@ class Interp:
                 raise ShapeError(f'stand-in {base.kind} has no field `{e.attr}`')
             if isinstance(base, dict) and e.attr in base:
                 return base[e.attr]
+            if isinstance(base, Fraction) and e.attr in ('numerator', 'denominator'):
+                return getattr(base, e.attr)
             raise ShapeError(f'attribute `{ast.unparse(e)}` on {type(base).__name__}')
         if isinstance(e, ast.Subscript):
             base = self.ev(e.value, env)
@@ -319,6 +322,8 @@ class Interp:
                 raise ShapeError(f'stand-in {base.kind} has no method `{f.attr}`')
             if isinstance(base, str) and f.attr in ('startswith', 'endswith', 'lstrip', 'rstrip', 'strip', 'lower', 'upper', 'removeprefix', 'removesuffix', 'join', 'split', 'replace', 'encode', 'format'):
                 return getattr(base, f.attr)(*args, **kwargs)
+            if isinstance(base, int) and not isinstance(base, bool) and f.attr in ('bit_length', 'bit_count'):
+                return getattr(base, f.attr)(*args, **kwargs)
             if isinstance(base, (list, dict, set, tuple)) and f.attr in ('append', 'extend', 'get', 'items', 'keys', 'values', 'add', 'copy', 'index', 'count', 'pop', 'discard', 'remove', 'update', 'setdefault'):
                 return getattr(base, f.attr)(*args, **kwargs)
             raise ShapeError(f'call `{ast.unparse(f)}` has no table reading')
@@ -344,7 +349,7 @@ class Interp:
                 names.append(ast.unparse(n))
         if isinstance(v, Obj):
             return any(self.is_a(v.kind, c) for c in names)
-        py = {'int': int, 'bool': bool, 'str': str, 'tuple': tuple, 'list': list, 'float': float, 'NoneType': type(None)}
+        py = {'int': int, 'bool': bool, 'str': str, 'tuple': tuple, 'list': list, 'float': float, 'NoneType': type(None), 'Fraction': Fraction}
         return any(c in py and isinstance(v, py[c]) for c in names)
 
     # -- statements ------------------------------------------------------------
